@@ -1,4 +1,5 @@
 import NLE.Proofs.OwnInv
+import NLE.Gen.Shape
 /-!
 # C01 — the leadership record is changed only by its owner or a legitimate successor
 
@@ -84,5 +85,17 @@ theorem delete_counterexample :
         | some m => m.who == 1 && m.kind == .delete && (match m.before with | some r => r.writer == 2 | none => false)
         | none => false)
      | .error _ => false) = true := by decide
+
+/-- What the model assumes about the code, as facts regenerated from the AST: the revision field is written only by
+    `becomeLeader`, the heartbeat loop, `observeLeader` (which drops observations while leading) and the constructor;
+    the heartbeat presents that field and re-checks the term after the health check; `Delete` is issued only by
+    `StopWithContext`; the takeover path needs the flag, a positive priority and a strictly lower stored priority. -/
+theorem shape :
+    Gen.revisionWriters = ["kvElection.becomeLeader", "kvElection.heartbeatLoop", "kvElection.observeLeader", "newKVElection"] ∧
+    Gen.observeLeaderGuarded = true ∧ Gen.heartbeatPresentsRevisionField = true ∧ Gen.heartbeatRechecksTerm = true ∧
+    Gen.kvDeleteCallers = ["kvElection.StopWithContext"] ∧ Gen.takeoverStrictPriority = true ∧
+    Gen.takeoverNeedsFlagAndPositivePriority = true ∧
+    Gen.kvUpdateCallers = ["kvElection.attemptPriorityTakeover", "kvElection.heartbeatLoop"] := by decide
+
 
 end NLE.Theorems.C01
